@@ -176,6 +176,10 @@ BREAK = [
     ("C18", "bridge-ends-flipped", "gaftools/cli/order_gfa.py", "            if len(bc_end_nodes) != 2:", "            if len(bc_end_nodes) == 2:"),
     ("C06", "single-node-no", "gaftools/cli/order_gfa.py", "{node: (bo_start, 0)}", "{node: (bo_start, 1)}"),
     ("C07", "concat-list-not-filled", "gaftools/cli/order_gfa.py", "            out_gfa.append(f_gfa)\n", ""),
+    ("C19", "counter-starts-at-one", "gaftools/cli/stat.py", "    total_aligned_bases = 0\n", "    total_aligned_bases = 1\n"),
+    ("C19", "map-ratio-product", "gaftools/cli/stat.py", "map_ratio = float(mapping.query_end - mapping.query_start) / (mapping.query_length)", "map_ratio = float(mapping.query_end - mapping.query_start) * (mapping.query_length)"),
+    ("C19", "identity-sum", "gaftools/cli/stat.py", "map_ratio = float(mapping.query_end - mapping.query_start) / (mapping.query_length)", "map_ratio = float(mapping.query_end + mapping.query_start) / (mapping.query_length)"),
+    ("C15", "isolated-node-lost", "gaftools/gfa.py", "            cc.add(start_node)\n            return cc", "            return cc"),
 ]
 
 TWIN = [
